@@ -499,6 +499,26 @@ func inBytesString(ex *Exec, fn *ssa.Function, args []Value) (Value, bool) {
 	return &StrV{b: ex.sliceBytes(args[0].(SliceV))}, true
 }
 
+// sync.Pool without pooling: Get always asks New (or returns nil), Put drops the value.
+func inPoolGet(ex *Exec, fn *ssa.Function, args []Value) (Value, bool) {
+	p := args[0].(PtrV)
+	if p.c == nil {
+		ex.nilDeref()
+	}
+	ex.stubsSeen["sync.Pool: no pooling (Get calls New, Put discards)"] = true
+	st := p.c.typ.Underlying().(*types.Struct)
+	for i := 0; i < st.NumFields(); i++ {
+		if st.Field(i).Name() == "New" {
+			f := ex.loadCell(p.c.kids[i]).(FuncV)
+			if f.fn == nil {
+				return IfaceV{}, true
+			}
+			return ex.callValue(f, nil, nil), true
+		}
+	}
+	return IfaceV{}, true
+}
+
 func inIdentity(ex *Exec, fn *ssa.Function, args []Value) (Value, bool) { return args[0], true }
 
 func inNoop(ex *Exec, fn *ssa.Function, args []Value) (Value, bool) {
@@ -785,6 +805,7 @@ var intrinsicTable = map[string]intrinsicFn{
 	"time.Sleep":                         inNoop,
 	"github.com/tidwall/gjson.stringBytes": inStringBytes,
 	"github.com/tidwall/gjson.bytesString": inBytesString,
+	"(*sync.Pool).Put":                   inNoop,
 	"internal/abi.NoEscape":              inIdentity,
 	"internal/bytealg.MakeNoZero":        inMakeNoZero,
 	"(*strings.Builder).copyCheck":       inNoop,
@@ -811,6 +832,8 @@ var intrinsicTable = map[string]intrinsicFn{
 	"(*sync.Cond).Signal":                inNoop,
 	"(*sync.noCopy).Lock":                inNoop,
 }
+
+func init() { intrinsicTable["(*sync.Pool).Get"] = inPoolGet }
 
 // prefix-matched no-op families (logging, metrics)
 var noopPrefixes = []string{
